@@ -126,12 +126,13 @@ def check_case(ctx, sf, spec, backend, h, plan, seed):
         if d:
             ctx.fail(f"{backend}:state-{key}", f"{backend} hbar={h}: state {key} do not scale with hbar: {d}", rp)
     bad_hist = False
+    seen = set()
     kappa = max(ref.get("kappa", 1.0), out.get("kappa", 1.0))
     if kappa > KAPPA_MAX:
         ctx.tally("skipped:ill-conditioned-weights")
         return len(ctx.failures) > n0
     for i, c in enumerate(plan):
-        tol = max(TOL, 1e-12 * (kappa ** 2 if c["m"] == "purity" else kappa))
+        tol = max(hb.METHOD_TOL.get(c["m"], TOL), 1e-12 * (kappa ** 2 if c["m"] == "purity" else kappa))
         if tol > 1e-6:
             continue
         d = hb.answers_differ(out["answers"][i], ref["answers"][i], tol)
@@ -140,18 +141,20 @@ def check_case(ctx, sf, spec, backend, h, plan, seed):
         # classify: wrong on a fresh state object, or only after earlier calls
         fr = fresh_answer(sf, spec, backend, h, c, seed)
         fr2 = fresh_answer(sf, spec, backend, 2.0, c, seed)
-        if hb.answers_differ(fr, fr2, TOL):
+        if hb.answers_differ(fr, fr2, tol):
             sig = f"{backend}:{c['m']}"
             if backend == "gaussian" and c["m"] == "parity_expectation" and len(c["modes"]) < spec["n"]:
                 sig += ":subset-of-modes"
-            ctx.fail(sig, f"{backend} hbar={h}: {c['m']}({ {k: v for k, v in c.items() if k != 'm'} }) "
-                     f"depends on hbar: {d}"[:400], rp)
+            if sig not in seen:       # a call that is wrong by itself does not invalidate the later ones: go on
+                seen.add(sig)
+                ctx.fail(sig, f"{backend} hbar={h}: {c['m']}({ {k: v for k, v in c.items() if k != 'm'} }) "
+                         f"depends on hbar: {d}"[:400], rp)
         else:
             bad_hist = True
             prev = [p["m"] for p in plan[:i]]
             ctx.fail(f"{backend}:{c['m']}:after-history", f"{backend} hbar={h}: {c['m']} is right on a fresh state object "
                      f"but wrong after the calls {prev}: {d}"[:400], rp)
-        break
+            break                     # the state object is corrupted from here on
     for key in ref["last"]:
         d = hb.answers_differ(out["last"][key], out["first"][key], 1e-12)
         if d and not bad_hist:
@@ -189,8 +192,8 @@ def utils_states_check(ctx, sf, rng):
 def oracle(ctx, sf):
     rng = ctx.rng
     plans = dict(gaussian=(8, 16), bosonic=(6, 12))
-    budget = [("gaussian", ctx.n(60, 700)), ("bosonic", ctx.n(36, 400)), ("fock-pure", ctx.n(16, 200)),
-              ("fock-mixed", ctx.n(12, 150))]
+    budget = [("gaussian", ctx.n(110, 900)), ("bosonic", ctx.n(66, 500)), ("fock-pure", ctx.n(28, 260)),
+              ("fock-mixed", ctx.n(22, 200))]
     for backend, count in budget:
         for it in range(count):
             spec = hb.rand_program(rng, backend)
